@@ -63,14 +63,15 @@ def isEof : Pat → Bool
   | .eof => true
   | _ => false
 
-/-- arms of a state that has an `eoc` arm: do nothing and stay, or start with `emit_text` -/
+/-- arms of a state that has an `eoc` arm: do nothing and stay, or start with `emit_text`; the `eof` arm does
+the latter (so that no text is left undelivered at the end of the document) -/
 def debtArmOk (arm : Arm) : Bool :=
-  match arm.pat, arm.body with
+  (match arm.pat, arm.body with
   | .eoc, _ => true
   | _, .seq ⟨[], none⟩ => true
   | _, .seq ⟨⟨.emitText, true⟩ :: _, _⟩ => true
   | _, .seq ⟨⟨.emitTextAndEof, true⟩ :: _, _⟩ => true
-  | _, _ => false
+  | _, _ => false) && (!isEof arm.pat || arm.body != .seq ⟨[], none⟩)
 
 /-- enter actions: no emission, no read of the input -/
 def enterOk : ActName → Bool
